@@ -285,11 +285,15 @@ tzm_find(tzmap_t m, const char *mname)
 			/* use lower half */
 			ep = (const znoff_t*)p - 1U;
 		} else {
-			/* forward to the next znoff_t alignment */
-			const znoff_t *op =
-				(const znoff_t*)ALIGN_TO(znoff_t, tp - 1U) + 1U;
+			/* forward to the next znoff_t alignment
+			 * behind the end of this record's key */
+			const znoff_t *op;
+			const int gtp = *mp - *tp > 0;
 
-			if (*mp - *tp > 0) {
+			for (; *tp; tp++);
+			op = (const znoff_t*)ALIGN_TO(znoff_t, tp - 1U) + 1U;
+
+			if (gtp) {
 				/* use upper half */
 				sp = op + 1U;
 			} else {
